@@ -297,6 +297,17 @@ pub open spec fn issuance_rangeproofs_stream(tx: Transaction) -> Seq<u8> { flat(
 pub open spec fn asset_amounts_stream(spent: Seq<TxOut>) -> Seq<u8> { flat(spent, |o: TxOut| ser_asset(o.asset) + ser_value(o.value)) }
 pub open spec fn script_pubkeys_stream(spent: Seq<TxOut>) -> Seq<u8> { flat(spent, |o: TxOut| ser_script(o.script_pubkey)) }
 
+/// std::borrow::Borrow, restated: `bview` is the borrowed value (ASSUMED contract on std; the crate uses T = TxOut / &TxOut)
+pub trait Borrow<B> {
+    spec fn bview(&self) -> B;
+    fn borrow(&self) -> (r: &B) ensures *r == self.bview();
+}
+impl Borrow<TxOut> for TxOut {
+    open spec fn bview(&self) -> TxOut { *self }
+    fn borrow(&self) -> (r: &TxOut) { self }
+}
+pub open spec fn spent_of<T: Borrow<TxOut>>(s: Seq<T>) -> Seq<TxOut> { s.map_values(|t: T| t.bview()) }
+
 // ---- environment: the lazily filled sub-hash caches (ASSUMED; Kani units c13_* check the closures boundedly) -----------
 // What is assumed is exactly `Option::get_or_insert_with` + "the closure computes the hash of the stream named by the
 // field": a cache that is already present is returned unchanged, an absent one is filled from the transaction (and, for
@@ -368,13 +379,3 @@ proof fn lemma_taproot_cache(o: SighashCache, f: SighashCache, r: TaprootCache, 
     ensures wf_cs(f), wf_t(f, spent), taproot_ok(r, *o.tx, spent), f.tx == o.tx, f.taproot_cache == Some(r)
 { reveal(taproot_cache_rel); }
 
-impl<'t> SighashCache<'t> {
-    #[verifier::external_body]
-    fn common_cache(&mut self) -> (r: &CommonCache)
-        ensures common_cache_rel(*old(self), *final(self), *r), final(self).common_cache == Some(*r)
-    { unimplemented!() }
-    #[verifier::external_body]
-    fn segwit_cache(&mut self) -> (r: &SegwitCache)
-        ensures segwit_cache_rel(*old(self), *final(self), *r), final(self).segwit_cache == Some(*r)
-    { unimplemented!() }
-}
